@@ -402,6 +402,17 @@ def r15g(ctx, rep, rule="R15g"):
     fresh_results(ctx, rep, rule, "String", "marwood::vm::vcell::VCell::string", "string", "string-set!", 1, 8)
 
 
+# R7RS small 6.6 / 6.7 (and 6.8 for the vector conversions): (min, max) operands; None = any number
+R7RS_ARITY_C15 = {
+    "string": (0, None), "make-string": (1, 2), "string-append": (0, None), "string-length": (1, 1), "string-ref": (2, 2),
+    "string-set!": (3, 3), "string-copy": (1, 3), "string-fill!": (2, 4), "string->list": (1, 3), "string->vector": (1, 3),
+    "vector->string": (1, 3), "list->string": (1, 1), "string-upcase": (1, 1), "string-downcase": (1, 1),
+    "string-foldcase": (1, 1), "char->integer": (1, 1), "integer->char": (1, 1), "char-upcase": (1, 1),
+    "char-downcase": (1, 1), "char-foldcase": (1, 1), "char-alphabetic?": (1, 1), "char-numeric?": (1, 1),
+    "char-whitespace?": (1, 1), "char-upper-case?": (1, 1), "char-lower-case?": (1, 1), "digit-value": (1, 1),
+}
+
+
 def r15j(ctx, rep, rule="R15j"):
     from .. import shapes
     facts = ctx["facts"]
@@ -506,6 +517,8 @@ def run(ctx, rep):
     r15h(ctx, rep)
     r15i(ctx, rep)
     r15j(ctx, rep)
+    from . import popbalance
+    popbalance.r_arity_table(ctx, rep, "R15k", R7RS_ARITY_C15, "the string and character procedures C15 names")
     from . import numeric
     numeric.r_fold_adjacent(ctx, rep, "R15f", [STRMOD, "marwood::vm::builtin::char::"], 2)
     from . import C14
